@@ -16,7 +16,8 @@
     [hdr_layout h d] : the six counts of header h are the big-endian words at offsets 20..43 of d. *)
 From Coq Require Import ZArith List Bool.
 From V Require Import Base.Int Base.IO Model.TzParser Model.TzRule Model.TzLookup.
-From V Require Import Proofs.TzCommon Proofs.TzEval Proofs.TzGrammar Proofs.C16.
+From V Require Import Spec.TzWriter.
+From V Require Import Proofs.TzCommon Proofs.TzEval Proofs.TzGrammar Proofs.TzRoundtrip Proofs.C16.
 Import ListNotations.
 Open Scope Z_scope.
 
@@ -111,6 +112,22 @@ Theorem C16_transition_date_range : forall d year, day_ok d -> -2147483650 <= ye
   post (transition_date d year) (fun '(m, md) => 1 <= m <= 12 /\ 1 <= md <= 32).
 Proof. exact transition_date_spec. Qed.
 Print Assumptions C16_transition_date_range.
+
+(** *** What a conforming writer emits is read back exactly *)
+
+(* every rule of the two documented forms ([std offset] / [std offset dst offset,start/time,end/time]),
+   printed by the specification writer Spec/TzWriter.v (quoted names of 3..7 permitted characters,
+   offsets up to 24:59:59, rule times 0..24:59:59, or -167:59:59..167:59:59 with the v3 extension) *)
+Theorem C16_rule_roundtrip : forall r ext, rule_printable r ext ->
+  from_tz_string (print_rule r ext) ext = Val (Ok r).
+Proof. exact rule_roundtrip. Qed.
+Print Assumptions C16_rule_roundtrip.
+Example C16_rule_roundtrip_inhabited :
+  rule_printable (Fixed (mk_ltt (-36000) false (Some [72; 83; 84]))) false /\
+  rule_printable (Alternate (mk_alt (mk_ltt (-10800) false (Some [45; 48; 51])) (mk_ltt (-7200) true (Some [45; 48; 50]))
+                                    (MonthWeekday 3 5 0) (-7200) (MonthWeekday 10 5 0) (-3600))) true.
+Proof. exact rule_printable_examples. Qed.
+Print Assumptions C16_rule_roundtrip_inhabited.
 
 (** *** Witnesses *)
 Example C16_example_file_accepted :
